@@ -219,7 +219,11 @@ fn clip(b: &[u8]) -> String {
     }
 }
 
-fn reject_class(e: &gix_config::parse::Error) -> String {
+fn reject_class(e: &gix_config::parse::Error, input: &[u8]) -> String {
+    // a value that ends in a single backslash right at the end of the file: where the parser gives up varies
+    if input.iter().rev().take_while(|c| **c == b'\\').count() % 2 == 1 {
+        return "backslash-at-eof".to_string();
+    }
     let rest = e.remaining_data();
     let first = match rest.first() {
         None => "eof",
@@ -553,7 +557,7 @@ fn compare_file(ctx: &mut Ctx, r: &mut Rng, fi: usize, fc: &FileCase, entries: &
             ctx.eval();
             ctx.count("parse_reject");
             ctx.violation(
-                &format!("parse-reject|{}", reject_class(&e)),
+                &format!("parse-reject|{}", reject_class(&e, bytes)),
                 "gitoxide rejects a config file that git accepts",
                 witness(json!({"error": e.to_string(), "git_entries": entries.len()})),
             );
